@@ -540,6 +540,7 @@ def main():
                 violations.append((h, f, r))
         if r["status"] == "undecided" or (r["undecided"] and r["status"] != "violation"):
             undecided.append("%s: %s" % (h, "; ".join(r["undecided"])[:600]))
+    soft_notes = []
     for sn in static_notes:
         if sn["ok"] is None:
             undecided.append("scan %s: %s" % (sn["scan"], sn["note"]))
@@ -554,6 +555,10 @@ def main():
                                                      cmd="syntactic scan + native replay", raw_tail=json.dumps(nat), playback=None)
                 violations.append(("scan:" + sn["scan"], f, results["scan:" + sn["scan"]]))
                 ssel_native[sn["scan"]] = nat
+            elif sp.get("soft"):
+                # the flag only widens what must be assumed: recorded, not an alarm and not undecided
+                soft_notes.append("%s — native history replays pass; the contracts are proved from the initial state and over the depth-2 histories of the *_seq / *_top / *_again harnesses only" % sn["note"])
+                log("NOTE: scan %s: %s (native history replays pass)" % (sn["scan"], sn["note"]))
             else:
                 undecided.append("scan %s flagged (%s) but the native replay did not confirm it" % (sn["scan"], sn["note"]))
 
@@ -609,7 +614,7 @@ def main():
         hashes = extract.body_hashes([(x[0], x[1], x[2] if len(x) > 2 else 0, x[3] if len(x) > 3 else None) for x in fn_specs])
     except extract.LostAnchor as e:
         hashes = {"error": str(e)}
-    assumptions = sorted(set(pinfo.get("assumptions", []) + registry.scan_assumptions(sorted({s.get("module") for s in sel.values() if s.get("module")})) + [a for r in results.values() for a in r.get("assumed", [])] + [s_["note"] for s_ in sel.values() if s_.get("note")]))
+    assumptions = sorted(set(pinfo.get("assumptions", []) + registry.scan_assumptions(sorted({s.get("module") for s in sel.values() if s.get("module")})) + [a for r in results.values() for a in r.get("assumed", [])] + [s_["note"] for s_ in sel.values() if s_.get("note")] + soft_notes))
     edit_summary = {}
     for v, lg in edits.items():
         cnt = {}
